@@ -15,8 +15,9 @@ from holopy.scattering import calc_cross_sections, calc_scat_matrix, Sphere, Sph
 from holopy.scattering.theory.mie_f import miescatlib
 
 ID = "C03"
-LEAN_MODULES = ["HoloProps.C03"]
-MODEL_MODULES = ["HoloModel.Mie"]
+LEAN_MODULES = ["HoloProps.C03", "HoloProps.C03Gen"]
+MODEL_MODULES = ["HoloModel.Mie", "HoloGen.PyMie"]
+GEN_DEPS = ["PyMie"]
 NOT_PROVED = [
     "absorption >= 0 for an absorbing index (needs the sign of Im D_n: analysis) - search only",
     "scattering cross section and asymmetry parameter equal the solid-angle integrals of |S|^2 (orthogonality of pi_n, tau_n is not in Mathlib): checked by an independent Gauss-Legendre quadrature in the search",
